@@ -498,6 +498,27 @@ pub fn generate(rng: &mut Rng, n: usize, _tier: &str) -> Vec<Value> {
     // fixed part: the unit test's script, and the poll-loop pattern (write, flush, partial sends, empty tail chunk)
     v.push(json!({"ops": [["w",[111,110]],["w",[101]],["f"],["w",[44,116,119,111]],["f"],["re"]]}));
     v.push(json!({"ops": [["w",[1,2,3,4,5]],["f"],["cw",2,true],["f"],["cw",2,true],["cw",9,true],["cw",9,true],["cw",9,true]]}));
+    // reach that the check requires, by construction: a drop that finds the front chunk partly consumed, more
+    // than 32 chunks, a chunk over 64 KiB drained in more than ten pieces
+    v.push(json!({"ops": [["w",[1,2,3,4,5,6]],["f"],["w",[7,8]],["f"],["w",[9]],["cw",2,true],["d"],["w",[10]],["re"]]}));
+    {
+        let mut many: Vec<Value> = vec![];
+        for i in 0..40u64 {
+            many.push(json!(["w", [i % 251, (i * 7) % 251]]));
+            many.push(json!(["f"]));
+        }
+        many.push(json!(["cw", 1, true]));
+        many.push(json!(["d"]));
+        many.push(json!(["re"]));
+        v.push(json!({ "ops": many }));
+        let mut big: Vec<Value> = vec![json!(["wg", 4711, 200000]), json!(["f"]), json!(["wg", 4712, 70000])];
+        for k in 0..14u64 {
+            big.push(json!(["cw", 4096 + k, true]));
+        }
+        big.push(json!(["r", 65537]));
+        big.push(json!(["re"]));
+        v.push(json!({"big": true, "ops": big}));
+    }
     // big histories: few, they cost a second each on the Coq side
     let (nbig, cap) = if _tier == "thorough" { (n / 150 + 40, 1_300_000) } else { (n / 100 + 8, 700_000) };
     let mut bigs = vec![];
